@@ -101,16 +101,16 @@ T('C03', 'twin-gt-swap-sides', OT, "        if self.year != time.year:\n        
 T('C03', 'twin-toabs-order', OT, "        seconds += self.hour * 3600\n        seconds += self.min * 60\n        seconds += self.sec\n", "        seconds += self.sec\n        seconds += 60 * self.min\n        seconds = seconds + self.hour * 3600\n")
 
 # ---------------------------------------------------------------- C04
-M('C04', 'gt-off-by-one', TRACK, "                self.__POINTS[arg : self.size()], self.uid, self.tid, self.base", "                self.__POINTS[arg + 1 : self.size()], self.uid, self.tid, self.base", 'C04.S')
-M('C04', 'mod-stride-offset', TRACK, "            track = Track(self.__POINTS[::sample], self.uid, self.tid, base=self.base)", "            track = Track(self.__POINTS[1::sample], self.uid, self.tid, base=self.base)", 'C04.S')
-M('C04', 'span-strict', TRACK, "            if self.__POINTS[k].timestamp > tfin:\n                continue", "            if self.__POINTS[k].timestamp >= tfin:\n                continue", 'C04.T')
-M('C04', 'span-no-swap', TRACK, "        if tini > tfin:\n            ttemp = tini\n            tini = tfin\n            tfin = ttemp", "        if tini > tfin:\n            ttemp = tini\n            tini = tfin", 'C04.T')
-M('C04', 'remove-ascending', TRACK, "        for i in range(len(tab_idx) - 1, -1, -1):\n            counter += self.__removeObsById(tab_idx[i])", "        for i in range(len(tab_idx)):\n            counter += self.__removeObsById(tab_idx[i])", 'C04.R')
+M('C04', 'gt-off-by-one', TRACK, "                self.__POINTS[arg : self.size()], self.uid, self.tid, self.base", "                self.__POINTS[arg + 1 : self.size()], self.uid, self.tid, self.base", 'C04.G')
+M('C04', 'mod-stride-offset', TRACK, "            track = Track(self.__POINTS[::sample], self.uid, self.tid, base=self.base)", "            track = Track(self.__POINTS[1::sample], self.uid, self.tid, base=self.base)", 'C04.G')
+M('C04', 'span-strict', TRACK, "            if self.__POINTS[k].timestamp > tfin:\n                continue", "            if self.__POINTS[k].timestamp >= tfin:\n                continue", 'C04.G')
+M('C04', 'span-no-swap', TRACK, "        if tini > tfin:\n            ttemp = tini\n            tini = tfin\n            tfin = ttemp", "        if tini > tfin:\n            ttemp = tini\n            tini = tfin", 'C04.G')
+M('C04', 'remove-ascending', TRACK, "        for i in range(len(tab_idx) - 1, -1, -1):\n            counter += self.__removeObsById(tab_idx[i])", "        for i in range(len(tab_idx)):\n            counter += self.__removeObsById(tab_idx[i])", 'C04.G')
 M('C04', 'extract-exclusive', TRACK, "        for k in range(id_ini, id_fin + 1):\n            track.addObs(self.__POINTS[k])", "        for k in range(id_ini, id_fin):\n            track.addObs(self.__POINTS[k])", None)
 M('C04', 'gt-mutates-source', TRACK, "            output.__transmitAF(self)\n            return output\n\n    # ------------------------------------------------------------\n    # [<] Removes last n points of track or time comp",
   "            output.__transmitAF(self)\n            self.__POINTS = self.__POINTS[arg:]\n            return output\n\n    # ------------------------------------------------------------\n    # [<] Removes last n points of track or time comp", 'C04.F')
 M('C04', 'transmit-alias', TRACK, "        self.__analyticalFeaturesDico = track.__analyticalFeaturesDico.copy()", "        self.__analyticalFeaturesDico = track.__analyticalFeaturesDico", 'C04.F')
-M('C04', 'insertion-floor-guard', TRACK, "        while self.getObs(id).timestamp > timestamp:\n            if id == 0:\n                break\n            id -= 1", "        while self.getObs(id).timestamp > timestamp:\n            id -= 1", 'C04.I')
+M('C04', 'insertion-floor-guard', TRACK, "        while self.getObs(id).timestamp > timestamp:\n            if id == 0:\n                break\n            id -= 1", "        while self.getObs(id).timestamp > timestamp:\n            id -= 1", 'C04.G')
 T('C04', 'twin-lt-temp', TRACK, "            output = Track(\n                self.__POINTS[0 : (self.size() - arg)], self.uid, self.tid, self.base\n            )",
   "            last = self.size() - arg\n            output = Track(\n                self.__POINTS[0:last], self.uid, self.tid, self.base\n            )")
 T('C04', 'twin-span-else', TRACK, "            if self.__POINTS[k].timestamp < tini:\n                continue\n            if self.__POINTS[k].timestamp > tfin:\n                continue\n            track.addObs(self.__POINTS[k].copy())",
